@@ -80,6 +80,45 @@ class Func(object):
         return '<Func %s>' % self.fq
 
 
+_HOMES = [None]
+
+
+def _homes():
+    """{top-level name: [modules defining it]} on the tree the checker was built for (ttsa/homes.json)."""
+    if _HOMES[0] is None:
+        import json
+        fp = os.path.join(os.path.dirname(os.path.abspath(__file__)), 'homes.json')
+        try:
+            with open(fp) as fh:
+                _HOMES[0] = json.load(fh)
+        except Exception:
+            _HOMES[0] = {}
+    return _HOMES[0]
+
+
+class AliasFunc(Func):
+    """A function that was moved to another module of the package and is still reachable under its old name
+    (`old = new_home.name` or `from .new_home import name` at module level of the old home).  Names inside the body are
+    resolved where the body stands; the function is reported, and found by the rules, under the old name."""
+    def __init__(self, target, home, name):
+        Func.__init__(self, target.module, target.node, target.cls)
+        self.home = home
+        self.alias_name = name
+        self.target = target
+
+    @property
+    def fq(self):
+        return '%s.%s' % (self.home.name, self.alias_name)
+
+    @property
+    def cfg(self):
+        return self.target.cfg
+
+    @property
+    def locals(self):
+        return self.target.locals
+
+
 class Module(object):
     def __init__(self, name, path, src=None):
         self.name = name
@@ -95,12 +134,23 @@ class Module(object):
             self.tree = ast.parse(self.src, filename=path)
         self.normalised = {}
         if not os.environ.get('TTSA_NO_NORMALISE'):
+            # N13 at module level: `NAME: Final = v` / `TABLE: List[str] = v` is `NAME = v` (a bare `NAME: T` says nothing)
+            body = []
+            for st in self.tree.body:
+                if isinstance(st, ast.AnnAssign) and isinstance(st.target, ast.Name) and st.simple:
+                    self.normalised['N13'] = self.normalised.get('N13', 0) + 1
+                    if st.value is not None:
+                        body.append(ast.copy_location(ast.Assign(targets=[st.target], value=st.value), st))
+                    continue
+                body.append(st)
+            self.tree.body = body
+            ast.fix_missing_locations(self.tree)
             # N18: one way of naming the other modules of the package and what they define
             import copy
             from . import normalise
             pristine = copy.deepcopy(self.tree)
             try:
-                k = normalise.canonicalise_imports(self.tree, PKG, MODULES, name)
+                k = normalise.canonicalise_imports(self.tree, PKG, MODULES, name, _homes())
                 if k:
                     compile(self.tree, self.path, 'exec')
                     self.normalised['N18'] = k
@@ -191,6 +241,31 @@ class Program(object):
         h.update(self.modules['__main__'].src.encode('utf-8'))
         self.digest = h.hexdigest()[:16]
         from . import normalise
+        # a constant table that moved to another module and is still known under its old name at its old home
+        # (`X = other.X` there): the old home gets the literal back
+        if not os.environ.get('TTSA_NO_NORMALISE'):
+            import copy
+            homes = _homes()
+            for n, m in self.modules.items():
+                for st in m.tree.body:
+                    if not (isinstance(st, ast.Assign) and len(st.targets) == 1 and isinstance(st.targets[0], ast.Name)
+                            and isinstance(st.value, ast.Attribute) and isinstance(st.value.value, ast.Name)):
+                        continue
+                    x, y = st.targets[0].id, st.value.attr
+                    tn = m.aliases.get(st.value.value.id)
+                    t = self.modules.get(tn)
+                    if t is None or t is m or n not in homes.get(x, ()):
+                        continue
+                    defs = [d for d in t.tree.body if isinstance(d, ast.Assign) and len(d.targets) == 1
+                            and isinstance(d.targets[0], ast.Name) and d.targets[0].id == y]
+                    if len(defs) != 1:
+                        continue
+                    try:
+                        ast.literal_eval(defs[0].value)
+                    except Exception:
+                        continue
+                    st.value = copy.deepcopy(defs[0].value)
+                    m.normalised['N18'] = m.normalised.get('N18', 0) + 1
         ctx = normalise.package_context(dict((n, (m.tree, dict(m.aliases), set())) for n, m in self.modules.items()))
         ctx['consts'] = dict((n, normalise.module_constants(m.tree)) for n, m in self.modules.items())
         ctx['keep'] = set(_names_known_to_rules()) | set(ctx.get('rebound', ()))      # (a name assigned through `module.NAME = ...` is no constant)
@@ -202,6 +277,24 @@ class Program(object):
             m.finish(ctx)
             for k, v in m.normalised.items():
                 self.normalised[k] = self.normalised.get(k, 0) + v
+
+        # definitions that moved to another module and left their old name behind as an alias
+        self.canon = {}
+        for n, m in self.modules.items():
+            for st in m.tree.body:
+                pairs = []
+                if isinstance(st, ast.Assign) and len(st.targets) == 1 and isinstance(st.targets[0], ast.Name) \
+                        and isinstance(st.value, ast.Attribute) and isinstance(st.value.value, ast.Name) \
+                        and st.value.value.id in m.aliases:
+                    pairs.append((st.targets[0].id, m.aliases[st.value.value.id], st.value.attr))
+                for (x, tn, y) in pairs:
+                    t = self.modules.get(tn)
+                    if n not in _homes().get(x, ()):
+                        continue            # an ordinary import / alias, not a definition that moved away from here
+                    if t is not None and t is not m and x not in m.funcs and y in t.funcs and not isinstance(t.funcs[y], AliasFunc):
+                        m.funcs[x] = AliasFunc(t.funcs[y], m, x)
+                        self.canon.setdefault((tn, y), []).append((n, x))
+        self.canon = dict((k, v[0]) for k, v in self.canon.items() if len(v) == 1)
 
     # private helpers are found through the public function that calls them, whatever they are called
     PRIVATE_VIA = {'_binarize_tree': 'binarize', '_inorder': 'inorder',
@@ -291,9 +384,60 @@ class Program(object):
             return list(getattr(v, e.func.attr)())
         raise Unrecognised('cannot evaluate constant expression %s' % ast.unparse(e)[:60])
 
+    def raising_calls(self, func):
+        """Calls inside `func` of package functions (or local functions) whose own body contains a `raise`: a function that
+        seems never to raise may raise through them."""
+        out = []
+        local_raisers = set(d.name for d in ast.walk(func.node) if isinstance(d, ast.FunctionDef) and d is not func.node
+                            and any(isinstance(x, ast.Raise) for x in ast.walk(d)))
+        for c in walk_own(func.node):
+            if not isinstance(c, ast.Call):
+                continue
+            if isinstance(c.func, ast.Name) and c.func.id in local_raisers:
+                out.append(c)
+                continue
+            t = self.callee(c, func)
+            g = self.func(t[0], t[1], required=False) if t else None
+            if g is not None and g.node is not func.node and any(isinstance(x, ast.Raise) for x in walk_own(g.node)):
+                out.append(c)
+        return out
+
+    def raises_kind(self, exc, func, base='ValueError', _depth=0):
+        """Is the exception expression `exc` (of a raise in `func`) an instance of builtin `base` - the builtin itself or
+        a class of the package derived from it?  True / False / None (not resolvable)."""
+        e = exc.func if isinstance(exc, ast.Call) else exc
+        if isinstance(e, ast.Name):
+            if e.id == base:
+                return True
+            mod, cname = func.module, e.id
+        elif isinstance(e, ast.Attribute) and isinstance(e.value, ast.Name) and e.value.id in func.module.aliases:
+            mod, cname = self.modules.get(func.module.aliases[e.value.id]), e.attr
+        else:
+            return None
+        for _ in range(6):
+            cls = mod.classes.get(cname) if mod is not None else None
+            if cls is None:
+                import builtins
+                b = getattr(builtins, cname, None)
+                want = getattr(builtins, base, None)
+                if isinstance(b, type) and isinstance(want, type):
+                    return issubclass(b, want)
+                return None
+            if len(cls.bases) != 1 or not isinstance(cls.bases[0], ast.Name):
+                return None
+            cname = cls.bases[0].id
+            if cname == base:
+                return True
+        return None
+
     # ----------------------------------------------------------------- callee resolution
     def callee(self, call, func):
-        """(module, qualname) of a package function called by `call` inside `func`, else None."""
+        """(module, qualname) of a package function called by `call` inside `func`, else None.  A function that moved
+        and left an alias at its old home is named by the old home, whichever of the two names the call uses."""
+        r = self._callee(call, func)
+        return self.canon.get(r, r) if r is not None else None
+
+    def _callee(self, call, func):
         f = call.func
         mod = func.module
         if isinstance(f, ast.Attribute) and isinstance(f.value, ast.Name):
